@@ -41,9 +41,61 @@ Definition cfg_sane (cfg : config) : bool :=
      (sempty (c_clientip cfg) || negb (beq rid cih)) &&
      (sempty (c_tlsheader cfg) || negb (beq rid th))).
 
-(* ---- former finding regions (predicates on INPUTS).  All four defects have been repaired in
-   /repo; the predicates are kept for the refutation theorems about the [_unrepaired]
-   definitions and no longer restrict any theorem about the current code ---- *)
+(* "k differs from the configured name, or no name is configured" (hypotheses of the theorems) *)
+Definition off (k name : str) : Prop := name = [] \/ canon_key name <> k.
+
+(* the items addHeaders appends to the Forwarded value (by=, httpproto=, tlsver=, tlscipher=) *)
+Definition fwd_items (cfg : config) (r : request) : str :=
+  (if sempty (c_localip cfg) then [] else bs "; by=" ++ c_localip cfg) ++
+  (if sempty (r_proto r) then [] else bs "; httpproto=" ++ lower (r_proto r)) ++
+  (match r_tls r with Some (v, _) => if 0 <? v then bs "; tlsver=" ++ tls_ver_name v else [] | None => [] end) ++
+  (match r_tls r with Some (_, cs) => if negb (cs =? 0) then bs "; tlscipher=" ++ uint16base16 cs else [] | None => [] end).
+
+(* concrete configurations / requests / targets the witness theorems are stated about *)
+Definition ex_cfg : config :=
+  {| c_clientip := bs "X-Client-Ip"; c_tlsheader := bs "X-Tls"; c_tlsvalue := bs "true"; c_localip := [];
+     c_reqid := []; c_sts_maxage := 31536000%Z; c_sts_sub := false; c_sts_preload := false |}.
+Definition ex_cfg_xri : config :=
+  {| c_clientip := bs "X-Real-Ip"; c_tlsheader := []; c_tlsvalue := []; c_localip := [];
+     c_reqid := []; c_sts_maxage := 0%Z; c_sts_sub := false; c_sts_preload := false |}.
+Definition ex_peer : str := bs "1.2.3.4".
+Definition ex_req (tls : option (N * N)) (hdr : hmap) : request :=
+  {| r_peer := Some ex_peer; r_host := bs "example.com"; r_tls := tls; r_proto := bs "HTTP/1.1"; r_hdr := hdr |}.
+Definition ex_tgt (hostopt : str) : target :=
+  {| t_host := hostopt; t_url_host := bs "10.0.0.9:9000"; t_strip := [] |}.
+Definition ex_conn_hdr : hmap := [(K_CONN, [bs "X-Client-Ip, X-Real-Ip"; bs "x-tls"])].
+
+(* ---- the port a Host header value names, declaratively (RFC 3986 authority = host [":" port],
+   IP-literal in brackets), written with strings.Split-style decomposition and independent of
+   [split_host_port]/[local_port]'s index arithmetic:
+     "[" a "]:" p   ->  p      (a, p non-empty, no further brackets, p without colon)
+     a ":" p        ->  p      (exactly one colon, a, p non-empty, no brackets)
+     anything else  ->  the connection's default port (no port, bracketed literal alone,
+                        several colons without brackets, empty host, trailing colon, stray brackets) ---- *)
+Definition clean (s : str) : bool := negb (has_byte s 91) && negb (has_byte s 93).
+
+Definition spec_port (host : str) (tls : bool) : str :=
+  match host with
+  | 91 :: rest =>
+      match split_byte rest 93 with
+      | [a; 58 :: p] =>
+          if negb (sempty a) && negb (sempty p) && negb (has_byte a 91) && clean p && negb (has_byte p 58)
+          then p else default_port tls
+      | _ => default_port tls
+      end
+  | _ =>
+      match split_byte host 58 with
+      | [a; p] => if negb (sempty a) && negb (sempty p) && clean a && clean p then p else default_port tls
+      | _ => default_port tls
+      end
+  end.
+
+(* ---- finding regions (predicates on INPUTS).  Regions 1-4 (and the localPort defect, which
+   never had a region) have been repaired in /repo; their predicates are kept for the refutation
+   theorems about the [_unrepaired] definitions.  Regions 5 and 6 are OPEN: fabio trusts a
+   Forwarded / X-Forwarded-Proto header the client sent when it derives the other one (a design
+   decision: a proxy in front of fabio is believed), so the supplied header does not describe the
+   client's actual connection ---- *)
 (* 1 (REPAIRED by 7dd13e1, no longer a region of the current code): the route's host= option
       changed r.Host before addHeaders ran.  Kept for the refutation theorem about
       [serve_host_first_unrepaired]. *)
@@ -63,6 +115,15 @@ Definition F_cih_xrealip_forged (cfg : config) (hdr : hmap) : bool :=
       fabio had set it; addHeaders now removes such names from Connection *)
 Definition F_conn_lists (hdr : hmap) (k : str) : bool :=
   negb (is_ws hdr) && existsb (fun tok => beq (canon_key tok) k) (conn_tokens hdr).
+
+(* 5 (OPEN, F-C08-6): no X-Forwarded-Proto but a Forwarded header with a proto= item:
+      scheme() takes the proto from it and addHeaders supplies X-Forwarded-Proto with that value *)
+Definition F_fwd_proto_trusted (hdr : hmap) : bool :=
+  sempty (hget hdr K_XFP) && contains (hget hdr K_FWD) (bs "proto=").
+(* 6 (OPEN, F-C08-7): no Forwarded but an X-Forwarded-Proto header: the generated Forwarded
+      carries proto=<that value> *)
+Definition F_xfp_trusted (hdr : hmap) : bool :=
+  sempty (hget hdr K_FWD) && negb (sempty (hget hdr K_XFP)).
 
 (* ---- clauses ---- *)
 Definition last_elem_is (v peer : str) : bool :=
@@ -90,8 +151,11 @@ Definition true_scheme (tls : bool) : str := if tls then bs "https" else bs "htt
 Definition cl_proto (tls : bool) (up : hmap) : bool :=
   veq (hfind up K_XFP) (Some [true_scheme tls]).
 
-Definition cl_port (host : str) (tls : bool) (up : hmap) : bool :=
-  veq (hfind up K_XFPORT) (Some [local_port host tls]).
+(* [port] = the port the clause expects: [spec_port host tls] in the correspondence check,
+   [local_port host tls] in the theorems (the two are proved equal on every syntactic shape of
+   Host, Properties C08_port_*, and compared on every generated Host) *)
+Definition cl_port (port : str) (up : hmap) : bool :=
+  veq (hfind up K_XFPORT) (Some [port]).
 
 Definition cl_host (host : str) (up : hmap) : bool :=
   veq (hfind up K_XFH) (Some [host]).
@@ -99,30 +163,35 @@ Definition cl_host (host : str) (up : hmap) : bool :=
 (* [v] is [base] possibly followed by further ";"-separated items *)
 Definition starts_item (v base : str) : bool := beq v base || has_prefix v (base ++ [59]).
 
+(* Forwarded: a value the client sent is only appended to; a generated one starts with
+   for=<peer>; proto=<p> where p describes the connection (http/ws on plain, https/wss on TLS) *)
 Definition cl_fwd (hdr : hmap) (peer : str) (tls : bool) (up : hmap) : bool :=
   match hfind up K_FWD with
   | Some [v] =>
       if negb (sempty (hget hdr K_FWD)) then has_prefix v (hget hdr K_FWD)      (* appended to only *)
-      else if fresh hdr then
+      else
         existsb (fun p => starts_item v (bs "for=" ++ peer ++ bs "; proto=" ++ p))
                 (if tls then [bs "https"; bs "wss"] else [bs "http"; bs "ws"])
-      else has_prefix v (bs "for=" ++ peer ++ bs "; proto=")
   | _ => false
   end.
 
+(* [sts] = the Strict-Transport-Security values fabio itself put on the response (values the
+   upstream's own response carried are passed through by ReverseProxy and are not fabio's).
+   "only on TLS": presence on TLS with max-age > 0 is the configuration's meaning, not the
+   property's, and is left to the correspondence (same), not demanded here. *)
 Definition cl_sts (cfg : config) (tls : bool) (sts : list str) : bool :=
   match sts with
-  | [] => negb (tls && (0 <? c_sts_maxage cfg)%Z)
+  | [] => true
   | [v] => tls && has_prefix v (bs "max-age=")
   | _ => false
   end.
 
-(* ---- one observation = the list of (clause holds?, region that explains a failure).
-   No open finding region is left: every explanation is [None], i.e. any failing clause
-   is a violation (the second component is kept so that the driver code in Check is unchanged) ---- *)
+(* ---- one observation = the list of (clause holds?, region that explains a failure) ---- *)
+Definition expl (l : list (bool * N)) : option N :=
+  match filter fst l with (_, k) :: _ => Some k | [] => None end.
 
-(* [xff_here]: X-Forwarded-For is expected at this observation point *)
-Definition clauses (cfg : config) (hdr : hmap) (peer host : str) (tls : bool)
+(* [xff_here]: X-Forwarded-For is expected at this observation point; [port]: see cl_port *)
+Definition clauses (cfg : config) (hdr : hmap) (peer host port : str) (tls : bool)
            (xff_here : bool) (up : hmap) : list (bool * option N) :=
   let cih := canon_key (c_clientip cfg) in
   [ (* configured client-IP header carries the peer *)
@@ -132,10 +201,11 @@ Definition clauses (cfg : config) (hdr : hmap) (peer host : str) (tls : bool)
     (negb xff_here || negb (wf_hdr hdr) || cl_xff up peer, None);
     (cl_xri hdr up peer, None);
     (sempty (c_tlsheader cfg) || cl_tls cfg tls up, None);
-    (negb (fresh hdr) || cl_proto tls up, None);
-    (negb (sempty (hget hdr K_XFPORT)) || cl_port host tls up, None);
+    (* X-Forwarded-Proto supplied when absent describes the connection (no [fresh] gating) *)
+    (negb (sempty (hget hdr K_XFP)) || cl_proto tls up, expl [(F_fwd_proto_trusted hdr, 5)]);
+    (negb (sempty (hget hdr K_XFPORT)) || cl_port port up, None);
     (negb (sempty (hget hdr K_XFH)) || sempty host || cl_host host up, None);
-    (cl_fwd hdr peer tls up, None) ].
+    (cl_fwd hdr peer tls up, expl [(F_xfp_trusted hdr, 6)]) ].
 
 Definition all_hold (l : list (bool * option N)) : bool := forallb fst l.
 
@@ -146,3 +216,7 @@ Definition failing_region (l : list (bool * option N)) : option N :=
   | (_, r) :: rest =>
       if forallb (fun c => match snd c with Some _ => true | None => false end) rest then r else None
   end.
+
+(* no open region applies to this input *)
+Definition no_region (hdr : hmap) : bool :=
+  negb (F_fwd_proto_trusted hdr) && negb (F_xfp_trusted hdr).
